@@ -312,7 +312,13 @@ def proj(pid, op, core):
     if kind in ("num", "wrap", "rslice"):
         return core if pid == "C18" else None
     if kind == "find":
-        return core if pid == "C19" else None
+        if pid != "C19":
+            return None
+        # what the search is about: found or not (and which transaction), and VisitBreak iff found; which decode
+        # error an invalid block ends with is C14's business
+        d = kv(core)
+        r = d.get("r", "")
+        return (r if r in ("ok", "err:VisitBreak", "panic") else "decode-error", d.get("found"))
     if kind in ("redb", "cmp", "redbraw"):
         if pid == "C20":
             return core
